@@ -78,10 +78,6 @@ def lemma_level(v):
     f = v['failure']
     if f.get('preludes') and not f.get('clauses'):
         return True
-    for c in f.get('clauses', []):
-        # the two stand-alone predicates are used by no other code: no paired harness observes them
-        if 'fn can_be_part_of_14_bit_control_change_message' in c['owner'] or 'fn is_parameter_number_message_controller_number' in c['owner']:
-            return True
     return False
 
 
